@@ -26,7 +26,7 @@ func main() {
 	fs := flag.NewFlagSet("kv", flag.ExitOnError)
 	workers := fs.Int("j", defaultWorkers(), "workers")
 	solver := fs.String("solver", "z3", "z3 | z3-new | cvc5")
-	timeout := fs.Int("timeout", 60000, "per-query timeout ms")
+	timeout := fs.Int("timeout", 300000, "per-query timeout ms")
 	trace := fs.Bool("trace", false, "record instruction trace")
 	unwind := fs.Int("unwind", 300, "loop bound (run)")
 	ctx := fs.Int("ctx", 0, "context bound (run)")
@@ -51,8 +51,8 @@ func main() {
 		})
 		if os.Args[3] == "thorough" {
 			opt.samplesPer = 6
-			if *timeout == 60000 {
-				opt.timeoutMs = 300000
+			if *timeout == 300000 {
+				opt.timeoutMs = 900000
 			}
 		}
 		os.Exit(runCheck(os.Args[2], os.Args[3], opt))
